@@ -18,6 +18,12 @@ RULE = ('request side: routing depths 1..4 (thorough 1..8) built through Target.
         'Rmcp.send_and_receive_raw with a routed Target over a fake UDP socket, max_retries = 0; the transmitted nest '
         'is peeled by the specification bridges, the simulated target answers the inner request it received, the '
         'answer travels back after 0..3 bare acknowledgements as wrapped / plain / failing Send Message responses.  '
+        'Histories: ONE Target object re-routed 2..5 times (Target(routing=...) / set_routing / '
+        'set_routing_information, list and string form; longer, equal and SHORTER paths, sharing the leading hops of '
+        'the previous path or not; a request through the object between the re-routings): after every re-routing '
+        'encode_bridged_message(target.routing, ...) is compared with the Lean model of the set_routing history '
+        '(Target.reroute) and peeled against the path configured LAST, and the real Rmcp transport is run with that '
+        'Target; two Target objects re-routed in interleaved order, each judged against its own last path.  '
         'Distinct by (op, routing, header, bytes / script); non-trivial = depth >= 2 or at least one wrapping layer.')
 ASSUMPTIONS = [
     'encode_send_message / encode_bridged_message / decode_bridged_message and the bridging branch of '
@@ -64,25 +70,54 @@ def _mk_header(vals):
     return h
 
 
-def _routing_objs(routing, as_string=False):
-    """through the public API: Target.set_routing builds the Routing objects"""
+def _tuples(routing):
+    return [(a, b, c) for a, b, c in routing[:-1]] + [(routing[-1][0], routing[-1][1], None)]
+
+
+FORMS = ('list', 'string', 'info', 'ctor-list', 'ctor-string')
+
+
+def _apply_path(t, routing, form):
+    """one re-routing of Target `t` (None: create it) through the public API"""
     from pyipmi import Target
-    tuples = [(a, b, c) for a, b, c in routing[:-1]] + [(routing[-1][0], routing[-1][1], None)]
-    t = Target(routing[-1][1])
-    t.set_routing(repr(tuples) if as_string else tuples)
+    tuples = _tuples(routing)
+    if t is None and form.startswith('ctor'):
+        return Target(routing[-1][1], routing=repr(tuples) if form == 'ctor-string' else tuples)
+    if t is None:
+        t = Target(routing[-1][1])
+    if form in ('string', 'ctor-string'):
+        t.set_routing(repr(tuples))
+    elif form == 'info':
+        t.set_routing_information(tuples)
+    else:
+        t.set_routing(tuples)
     return t
+
+
+def _routing_objs(routing, as_string=False, history=None):
+    """through the public API: Target.set_routing builds the Routing objects.  `history`: [[path, form], ...]
+    configured on the SAME Target object before (a request goes through it after each of them)"""
+    from pyipmi.interfaces.ipmb import encode_bridged_message
+    t = None
+    for path, form in history or []:
+        t = _apply_path(t, [tuple(r) for r in path], form)
+        try:
+            encode_bridged_message(t.routing, _mk_header((0, 0, 6, 0, 0, 1, 1)), b'', 1)
+        except Exception:  # noqa
+            pass
+    return _apply_path(t, routing, 'string' if as_string else 'list')
 
 
 # ---------------------------------------------------------------------------------------
 # real code
 # ---------------------------------------------------------------------------------------
 
-def real_bridge(routing, hdr, seq, payload, as_string=False, nth=0):
+def real_bridge(routing, hdr, seq, payload, as_string=False, nth=0, history=None, target=None):
     """encode through one Target object; `nth` earlier requests went through the same object before
     (a Target is set up once and used for every request of a connection)"""
     from pyipmi.interfaces.ipmb import encode_bridged_message
     try:
-        t = _routing_objs(routing, as_string)
+        t = target if target is not None else _routing_objs(routing, as_string, history)
         for k in range(nth):
             encode_bridged_message(t.routing, _mk_header(hdr), b'\x00' * (k % 3), (seq + 64 - nth + k) % 64)
         h = _mk_header(hdr)
@@ -149,7 +184,7 @@ def real_transport(sc, frames):
     sock = FakeSock([lan_datagram(f) for f in frames])
     intf._sock = sock
     intf.next_sequence_number = sc['seq0']
-    t = _routing_objs(sc['routing'])
+    t = _routing_objs(sc['routing'], sc.get('as_string', False), sc.get('history'))
     t.ipmb_address = sc['target']
     try:
         r = intf.send_and_receive_raw(t, sc['lun'], sc['netfn'], bytes([sc['cmd']]) + lean.unhex(sc['data']))
@@ -204,12 +239,28 @@ def wrap_line(innermost, layers):
 HOP_FIELDS = ('bridge', 'source', 'channel', 'tracking', 'seq')
 
 
-def judge_bridge(ctx, drv, routing, hdr, seq, payload, model=None, as_string=False, nth=0):
+def judge_bridge(ctx, drv, routing, hdr, seq, payload, model=None, as_string=False, nth=0, history=None):
     case = {'op': 'bridge', 'routing': [list(r) for r in routing], 'hdr': list(hdr), 'seq': seq,
             'data': lean.hexs(payload), 'as_string': as_string, 'nth': nth}
-    real = real_bridge(routing, hdr, seq, payload, as_string, nth)
+    if history:
+        case['history'] = history
+    real = real_bridge(routing, hdr, seq, payload, as_string, nth, history)
     if model is not None and model != real:
         ctx.disagree('encode_bridged_message', case, model, real)
+    stale = ''
+    if history and real != real_bridge(routing, hdr, seq, payload, as_string, nth):
+        stale = ':after-rerouting'       # a fresh Target with the same path behaves differently
+    return judge_bridge_frame(ctx, drv, case, real, routing, hdr, seq, payload, stale)
+
+
+def judge_bridge_frame(ctx, drv, case, real, routing, hdr, seq, payload, stale=''):
+    """the bytes `real` of encode_bridged_message against the chain of specification bridges for `routing`"""
+    _violate = ctx.violate
+
+    class _C(object):      # signatures of history-only violations are distinct
+        def violate(self, sig, what, case, expected=None, observed=None):
+            _violate(sig + stale, what + (' (Target re-routed before)' if stale else ''), case, expected, observed)
+    ctx = _C()
     if not real.startswith('ok '):
         ctx.violate('C09:bridge:raises', 'encode_bridged_message raises on an in-range routing', case,
                     expected='a frame', observed=real)
@@ -295,6 +346,18 @@ def judge_transport(ctx, drv, sc, check_model=True):
     payload = lean.unhex(sc['data'])
     # 1st pass without any reply: what does the code transmit?
     sent, _, _ = real_transport(sc, [])
+    if sc.get('history'):
+        fresh = dict(sc)
+        fresh.pop('history')
+        if real_transport(fresh, [])[0] != sent:
+            _violate = ctx.violate
+
+            class _C(object):      # signatures of history-only violations are distinct
+                disagree = ctx.disagree
+
+                def violate(self, sig, what, case, expected=None, observed=None):
+                    _violate(sig + ':after-rerouting', what + ' (Target re-routed before)', case, expected, observed)
+            ctx = _C()
     if not sent or sent[0] is None:
         ctx.violate('C09:transport:no-frame', 'nothing (or no IPMI-over-LAN datagram) was transmitted', case,
                     expected='one datagram', observed=repr(sent)[:200])
@@ -482,6 +545,102 @@ def _run_transport(ctx, drv, rng, depths, rounds):
                         ctx.sample({'op': 'transport', 'scenario': sc})
 
 
+# ---------------------------------------------------------------------------------------
+# histories: one Target object re-routed several times
+# ---------------------------------------------------------------------------------------
+
+DIRECTED_DEPTHS = [(3, 2), (4, 2, 3), (4, 3, 2, 1), (2, 4, 1), (2, 2), (3, 3), (1, 2, 3, 4), (3, 1), (4, 1, 4)]
+
+
+def gen_path_history(rng, depths):
+    """paths for one Target; with probability 1/2 a path keeps the leading hops of the previous one (then a
+    stale tail is the only thing that could differ), otherwise it shares nothing"""
+    paths = []
+    for d in depths:
+        p = gen_routing(rng, d)
+        if paths and rng.random() < 0.5:
+            k = min(len(paths[-1]), d) - (1 if rng.random() < 0.5 else 0)
+            p = list(paths[-1][:max(0, k)]) + p[max(0, k):]
+        paths.append(p)
+    return paths
+
+
+def _run_reroute(ctx, drv, rng, n_random, max_depth):
+    hists = []
+    for i, depths in enumerate(DIRECTED_DEPTHS):
+        for forms in ('list', 'string', 'mixed'):
+            hists.append((gen_path_history(rng, depths), forms, True))
+    for _ in range(n_random):
+        depths = [rng.randrange(1, max_depth + 1) for _ in range(rng.randrange(2, 6))]
+        hists.append((gen_path_history(rng, depths), 'mixed', rng.random() < 0.5))
+    recs = []
+    for paths, forms, with_transport in hists:
+        fs = []
+        for k in range(len(paths)):
+            f = forms if forms != 'mixed' else rng.choice(FORMS if k == 0 else FORMS[:3])
+            fs.append(f)
+        for k in range(len(paths)):
+            history = [[[list(r) for r in paths[j]], fs[j]] for j in range(k)]
+            hdr = gen_hdr(rng, request=True)
+            recs.append((paths[k], fs[k] in ('string', 'ctor-string'), history, hdr, rng.randrange(64),
+                         gen_bytes(rng, rng.choice((0, 1, 5, rng.randrange(0, 20)))), with_transport, paths[:k + 1]))
+    models = drv.ask_many(['hist %s %s %d %s' % ('|'.join(rt(p) for p in ps), hs(h), sq, lean.hexs(pl))
+                           for _, _, _, h, sq, pl, _, ps in recs])
+    for (routing, as_string, history, hdr, seq, payload, with_transport, ps), m in zip(recs, models):
+        ctx.case(('reroute', tuple(tuple(p) for p in ps), hdr, seq, payload), nontrivial=len(ps) > 1)
+        if history:
+            prev = len(history[-1][0])
+            ctx.count('reroute:%s' % ('shorter' if len(routing) < prev else 'longer' if len(routing) > prev else 'equal-length'))
+            ctx.count('reroute:form-%s' % ('string' if as_string else 'list'))
+        else:
+            ctx.count('reroute:first-path')
+        judge_bridge(ctx, drv, routing, hdr, seq, payload, m, as_string, 0, history)
+        if with_transport and history and ctx.time_left() > 20:
+            sc = {'routing': routing, 'history': history, 'as_string': as_string, 'slave': rnglib.boundary_int(rng, 8),
+                  'target': rnglib.boundary_int(rng, 8), 'lun': rng.randrange(4), 'netfn': rng.randrange(32) * 2,
+                  'cmd': gen_hdr(rng)[6], 'data': lean.hexs(gen_bytes(rng, rng.randrange(0, 8))),
+                  'seq0': rng.randrange(64), 'acks': rng.choice((0, 0, 1)) if len(routing) >= 2 else 0,
+                  'final': rng.choice(('wrapped', 'plain')), 'max_retries': 0,
+                  'body': lean.hexs(bytes([0]) + gen_bytes(rng, rng.randrange(0, 8)))}
+            ctx.case(('reroute-transport', repr(sorted(sc.items()))))
+            ctx.count('reroute:transport')
+            judge_transport(ctx, drv, sc)
+    ctx.sample({'op': 'reroute', 'paths': [[list(r) for r in p] for p in hists[0][0]]})
+
+
+def run_two_targets(ops, hdr, seq, payload):
+    """ops: [[name, path, form], ...] on Target objects 'A' and 'B'; returns the frame each of them gives afterwards"""
+    ts, last = {}, {}
+    for name, path, form in ops:
+        path = [tuple(r) for r in path]
+        ts[name] = _apply_path(ts.get(name), path, form)
+        last[name] = path
+    return dict((n, (real_bridge(last[n], hdr, seq, payload, target=ts[n]), last[n])) for n in sorted(ts))
+
+
+def judge_two_targets(ctx, drv, ops, hdr, seq, payload):
+    case = {'op': 'two-targets', 'ops': ops, 'hdr': list(hdr), 'seq': seq, 'data': lean.hexs(payload)}
+    for name, (real, routing) in run_two_targets(ops, hdr, seq, payload).items():
+        fresh = real_bridge(routing, hdr, seq, payload)
+        judge_bridge_frame(ctx, drv, dict(case, judged=name), real, routing, hdr, seq, payload,
+                           ':other-target' if real != fresh else '')
+
+
+def _run_two_targets(ctx, drv, rng, n, max_depth):
+    for i in range(n):
+        ops = []
+        for _ in range(rng.randrange(2, 6)):
+            ops.append([rng.choice('AB'), [list(r) for r in gen_routing(rng, rng.randrange(1, max_depth + 1))],
+                        rng.choice(FORMS[:3])])
+        if len(set(o[0] for o in ops)) < 2:
+            ops.append(['B' if ops[0][0] == 'A' else 'A', [list(r) for r in gen_routing(rng, rng.randrange(1, max_depth + 1))], 'list'])
+        hdr = gen_hdr(rng, request=True)
+        seq, payload = rng.randrange(64), gen_bytes(rng, rng.randrange(0, 6))
+        ctx.case(('two-targets', repr(ops), hdr, seq, payload))
+        ctx.count('reroute:two-targets')
+        judge_two_targets(ctx, drv, ops, hdr, seq, payload)
+
+
 def _run_transport_codes(ctx, drv, rng):
     """every non-zero completion code on a failing Send Message layer THROUGH THE TRANSPORT (depth 2: the only
     layer; depth 3: alternating layers), without and with a retry budget: the caller must get that code"""
@@ -510,6 +669,8 @@ def run(ctx):
     rng.shuffle(codes)
     _run_encode(ctx, drv, rng, depths, 250 if quick else 1500)
     _run_unwrap(ctx, drv, rng, depths[-1], 100 if quick else 400, codes)
+    _run_reroute(ctx, drv, ctx.rng('c09-reroute'), 60 if quick else 1500, depths[-1])
+    _run_two_targets(ctx, drv, ctx.rng('c09-two-targets'), 40 if quick else 600, depths[-1])
     _run_transport(ctx, drv, rng, depths, 12 if quick else 60)
     _run_transport_codes(ctx, drv, rng)
 
@@ -525,6 +686,8 @@ def search(ctx):
     _run_encode(ctx, drv, rng, [1, 2, 3, 4, 5, 6], 150)
     if not ctx.violations:
         _run_unwrap(ctx, drv, rng, 6, 60, codes)
+    if not ctx.violations:
+        _run_reroute(ctx, drv, rng, 200, 6)
     if not ctx.violations:
         _run_transport(ctx, drv, rng, [1, 2, 3, 4, 5], 6)
 
@@ -542,11 +705,21 @@ def replay(ctx, v):
         nth = case.get('nth', 0)
         if nth:
             print('  as request number %d through the same Target object' % (nth + 1))
-        real = real_bridge(routing, hdr, seq, payload, case.get('as_string', False), nth)
+        history = case.get('history')
+        for path, form in history or []:
+            print('  the same Target object was routed before (%s): %s' % (form, [tuple(r) for r in path]))
+        real = real_bridge(routing, hdr, seq, payload, case.get('as_string', False), nth, history)
         print('  code : %s' % real)
         if real.startswith('ok '):
             print('  chain of %d specification bridges: %s' % (len(routing) - 1, drv.ask('peel %d %s' % (len(routing) - 1, real[3:]))))
-        judge_bridge(c2, drv, routing, hdr, seq, payload, None, case.get('as_string', False), nth)
+        judge_bridge(c2, drv, routing, hdr, seq, payload, None, case.get('as_string', False), nth, history)
+    elif op == 'two-targets':
+        hdr, seq, payload = tuple(case['hdr']), case['seq'], lean.unhex(case['data'])
+        for name, path, form in case['ops']:
+            print('  Target %s: set_routing (%s) %s' % (name, form, [tuple(r) for r in path]))
+        for name, (real, routing) in run_two_targets(case['ops'], hdr, seq, payload).items():
+            print('  request through %s: %s' % (name, real))
+        judge_two_targets(c2, drv, case['ops'], hdr, seq, payload)
     elif op == 'send':
         a, b, c, s, t = case['args']
         p = lean.unhex(case['data'])
@@ -566,6 +739,8 @@ def replay(ctx, v):
         sc['routing'] = [tuple(r) for r in case['routing']]
         print('Rmcp.send_and_receive_raw, routing %s, %d bare acks then %s reply, max_retries %d' % (
             sc['routing'], sc['acks'], sc['final'], sc['max_retries']))
+        for path, form in sc.get('history') or []:
+            print('  the same Target object was routed before (%s): %s' % (form, [tuple(r) for r in path]))
         judge_transport(c2, drv, sc, check_model=False)
         for x in c2.violations:
             print('  expected %s, observed %s' % (x['expected'], x['observed']))
